@@ -12,6 +12,7 @@ import (
 	"crypto/sha256"
 	"fmt"
 	"math/big"
+	"reflect"
 	"strings"
 	"time"
 
@@ -305,8 +306,12 @@ var (
 	consHash common.Hash
 )
 
+// utxoPos: blocks with more than utxoPos transactions hold the confidential transaction at that position.
+const utxoPos = 3
+
 func initFixture() {
 	initKeys()
+	initUTXO()
 	txPool = []txSpec{
 		signedTx(false, 0, 0, &addrA, 5, 21000, nil),
 		signedTx(false, 0, 1, &addrB, 7, 50000, []byte("payload-1")),
@@ -344,6 +349,10 @@ func baseBlock(c blockCfg) *types.Block {
 		LastCommit: &types.Commit{},
 	}
 	for i := 0; i < c.NTx; i++ {
+		if i == utxoPos {
+			b.Data.Txs = append(b.Data.Txs, freshUTXO())
+			continue
+		}
 		b.Data.Txs = append(b.Data.Txs, txPool[i].build())
 	}
 	if h > 1 {
@@ -431,6 +440,9 @@ type txView interface {
 }
 
 func dumpTx(tx types.Tx) string {
+	if u, isU := tx.(*types.UTXOTransaction); isU {
+		return "utxo{" + dumpValue(reflect.ValueOf(u)) + "}"
+	}
 	v, ok := tx.(txView)
 	if !ok {
 		vk.Fatalf("dump: unsupported transaction type %T", tx)
